@@ -1134,3 +1134,73 @@ pub fn many_records() -> Vec<(usize, Vec<u8>, bool)> {
     }
     v
 }
+
+// ---------------------------------------------------------------- protocol-defined magic values
+
+/// SHA-256("HelloRetryRequest"): the special ServerHello.random of RFC 8446 section 4.1.3
+pub const HRR_RANDOM: [u8; 32] = [
+    0xcf, 0x21, 0xad, 0x74, 0xe5, 0x9a, 0x61, 0x11, 0xbe, 0x1d, 0x8c, 0x02, 0x1e, 0x65, 0xb8, 0x91, 0xc2, 0xa2, 0x11, 0x16, 0x7a, 0xbb,
+    0x8c, 0x5e, 0x07, 0x9e, 0x09, 0xe2, 0xc8, 0xa8, 0x33, 0x9c,
+];
+
+/// randoms with a protocol-defined meaning that a decoder must nevertheless return verbatim
+pub fn magic_randoms() -> Vec<[u8; 32]> {
+    let mut v = vec![HRR_RANDOM, [0u8; 32], [0xff; 32]];
+    // downgrade sentinels of RFC 8446 4.1.3 in the last eight bytes
+    for last in [0x01u8, 0x00] {
+        let mut r = [0x5au8; 32];
+        r[24..31].copy_from_slice(b"DOWNGRD");
+        r[31] = last;
+        v.push(r);
+    }
+    // a random that starts like a unix time / like the HRR value but differs in the last byte
+    let mut near = HRR_RANDOM;
+    near[31] ^= 1;
+    v.push(near);
+    v
+}
+
+/// Hello messages (TLS and DTLS) carrying the magic randoms, for every ServerHello version form.
+pub fn magic_hellos() -> Vec<W> {
+    let mut v = Vec::new();
+    for r in magic_randoms() {
+        for version in [0x0300u16, 0x0301, 0x0302, 0x0303, 0x7f12] {
+            for e in [ExtBlock::Absent, ExtBlock::Bytes(6)] {
+                v.push(hs(2, |w| {
+                    w.u16(version);
+                    w.bytes(&r);
+                    if version == 0x7f12 {
+                        w.u16(0x1301);
+                    } else {
+                        w.block(1, "sid_len", |w| fill(w, 32, 0x90));
+                        w.u16(0x1301);
+                        w.u8(0);
+                    }
+                    put_ext(w, e);
+                }));
+            }
+        }
+        v.push(hs(1, |w| {
+            w.u16(0x0303);
+            w.bytes(&r);
+            w.block(1, "sid_len", |w| {
+                w.bytes(&r);
+            });
+            w.block(2, "ciphers_len", |w| {
+                w.u16(0x1301).u16(0x00ff).u16(0x5600);
+            });
+            w.block(1, "comp_len", |w| {
+                w.u8(0);
+            });
+            put_ext(w, ExtBlock::Empty);
+        }));
+        v.push(dtls_hs(2, 1, None, 0, |w| {
+            w.u16(0xfefd);
+            w.bytes(&r);
+            w.block(1, "sid_len", |_| {});
+            w.u16(0xc02f);
+            w.u8(0);
+        }));
+    }
+    v
+}
